@@ -78,11 +78,11 @@ def run_cases(cases):
     pos = 0
     for cs in cases:
         st, = struct.unpack_from('<I', out, pos)
-        vals = struct.unpack_from('<10I', out, pos + 4)
-        pos += 44
+        vals = struct.unpack_from('<11I', out, pos + 4)
+        pos += 48
         hot = out[pos:pos + HOT]
         pos += HOT
-        r = {'status': st, 'regs': list(vals[:8]), 'eip': vals[8], 'eflags': vals[9], 'hot': hot}
+        r = {'status': st, 'regs': list(vals[:8]), 'eip': vals[8], 'eflags': vals[9], 'cs': vals[10], 'hot': hot}
         if cs.get('fp'):
             r['mm'] = out[pos:pos + 64]
             r['xmm'] = out[pos + 64:pos + 192]
